@@ -865,6 +865,78 @@ def is_plain(v, top=True) -> bool:
     return False
 
 
+def part_reinject(ck: Check, drv, n, fails):
+    """update_parameters + Parameter.from_json on a specification entry vs the Lean re-injection model, and the
+    property's oracle: the parameter rebuilt from (spec entry, checkpoint entry) equals the saved parameter when the
+    spec names the saved dtype / nn flag (or names none and the default dtype is the saved one)"""
+    t = T()
+    torch, Parameter = t["torch"], t["Parameter"]
+    from torchtree.core.utils import update_parameters
+
+    rng = ck.rng
+    for i in range(n):
+        dflt = rng.choice(["float32", "float64"])
+        dt = rng.choice([torch.float32, torch.float64])
+        nn = rng.random() < 0.4
+        shape = rng.choice([(3,), (2, 2), (1,), ()])
+        numel = 1
+        for d_ in shape:
+            numel *= d_
+        vals = torch.tensor([rng.choice([0.5, -1.25, 3.0, 2.0 ** -10, 2.0 ** -30]) for _ in range(numel)], dtype=torch.float64).reshape(shape).to(dt)
+        saved_param = Parameter("p", torch.nn.Parameter(vals) if nn else vals)
+        saved = json.loads(json.dumps(saved_param, cls=t["Enc"]), cls=t["Dec"])
+        spec = {"id": "p", "type": rng.choice(["Parameter", "torchtree.Parameter", "torchtree.core.parameter.Parameter"])}
+        ctor = rng.choice(["tensor", "full", "zeros", "ones", "tensor+dimension", "arange"])
+        if ctor == "tensor":
+            spec["tensor"] = [0.0, 1.0]
+        elif ctor == "full":
+            spec["full"] = [2]
+            spec["tensor"] = 0.1
+        elif ctor == "zeros":
+            spec["zeros"] = 3
+        elif ctor == "ones":
+            spec["ones"] = [2, 2]
+        elif ctor == "arange":
+            spec["arange"] = 3
+        else:
+            spec["tensor"] = [0.5]
+            spec["dimension"] = 4
+        if rng.random() < 0.5:
+            spec["dtype"] = "torch." + rng.choice(["float32", "float64"])
+        if rng.random() < 0.5:
+            spec["nn"] = rng.random() < 0.5
+        if rng.random() < 0.2:
+            spec["requires_grad"] = False
+        wrapped = {"id": "outer", "type": "Something", "x": [dict(spec), "ref"], "n": 3}
+        torch.set_default_dtype(getattr(torch, dflt))
+        try:
+            try:
+                live = json.loads(json.dumps(wrapped))
+                update_parameters(live, {"p": saved})
+                entry = live["x"][0]
+                rebuilt = Parameter.from_json(entry, {})
+                impl = "ok " + " ".join(toks(rebuilt))
+            except Exception as e:
+                rebuilt, impl = None, "raise"
+                entry = None
+        finally:
+            torch.set_default_dtype(torch.float32)
+        ck.case(("reinject", json.dumps(spec, sort_keys=True), str(dt), nn, dflt), nontrivial=True, bucket="reinject/" + ctor)
+        if drv:
+            model = drv.ask(f"reinject {dflt} " + " ".join(toks(spec)) + " || " + " ".join(toks(saved)))
+            if model != impl:
+                ck.mismatch("re-injection differs from the Lean model", {"spec": spec, "saved_dtype": str(dt), "nn": nn, "default": dflt,
+                                                                          "impl": impl[:200], "model": model[:200]})
+        spec_dt = spec.get("dtype", "torch." + dflt)
+        if rebuilt is None:
+            fails.append(("reinject-raises", f"Parameter.from_json after update_parameters raises for spec {spec}",
+                          {"spec": spec, "default_dtype": dflt, "saved": " ".join(toks(saved_param))}))
+        elif spec_dt == str(dt) and bool(spec.get("nn", False)) == nn:
+            if " ".join(toks(rebuilt)) != " ".join(toks(saved_param)):
+                fails.append(("reinject-differs", f"parameter rebuilt from the checkpoint differs from the saved one (spec {spec})",
+                              {"spec": spec, "default_dtype": dflt, "saved": " ".join(toks(saved_param)), "rebuilt": " ".join(toks(rebuilt))}))
+
+
 def part_codec(ck: Check, drv, n, fails):
     t = T()
     torch = t["torch"]
@@ -1073,6 +1145,7 @@ def run(ck: Check):
                 run_cfg(runner, obj["kind"], obj["config"], "all")
         if drv:
             part_codec(ck, drv, 400 if ck.thorough() else 150, runner.fail)
+        part_reinject(ck, drv, 200 if ck.thorough() else 60, runner.fail)
         points = "all" if ck.thorough() else "some"
         ocfgs = opt_configs(ck)
         for cfg in ocfgs:
@@ -1120,6 +1193,26 @@ def replay(path: str) -> int:
             back = "raise " + repr(e)
         bad = back != "ok " + obj["value_tokens"]
         print("value   :", v, "\nwritten :", text[:300], "\nread    :", back[:300], "\n" + ("VIOLATES" if bad else "ok"))
+        return 1 if bad else 0
+    if "spec" in obj and "default_dtype" in obj:
+        t = T()
+        torch, Parameter = t["torch"], t["Parameter"]
+        from torchtree.core.utils import update_parameters
+
+        torch.set_default_dtype(getattr(torch, obj["default_dtype"]))
+        saved_param = from_toks(obj["saved"].split()) if "saved" in obj else Parameter("p", torch.tensor([0.5, -1.25]))
+        saved = json.loads(json.dumps(saved_param, cls=t["Enc"]), cls=t["Dec"])
+        spec = json.loads(json.dumps(obj["spec"]))
+        try:
+            update_parameters(spec, {"p": saved})
+            rebuilt = Parameter.from_json(spec, {})
+            back = " ".join(toks(rebuilt))
+        except Exception as e:
+            back = "raise " + repr(e)
+        want = " ".join(toks(saved_param))
+        print("spec after update_parameters:", spec, "\nrebuilt:", back, "\nsaved  :", want)
+        bad = back != want
+        print("VIOLATES" if bad else "ok")
         return 1 if bad else 0
     if "config" not in obj:
         print("replay names broken obligations only:", obj.get("broken_obligations"))
